@@ -244,7 +244,28 @@ func (g *lockGen) plan() *BlockPlan {
 			}
 		}
 	}
-	if rare(7) {
+	if rare(4) && len(thresholds) == 0 { // a threshold raised just above what a jailed validator holds, in a batch that ENDS with an
+		// update that changes nothing (the jailed validator must stay out until it meets the raised threshold)
+		for _, v := range st.Val {
+			if !v.Exists || v.Status != "Downgrade" || len(thresholds) > 0 {
+				continue
+			}
+			for ti := range st.Tokens {
+				if v.Locking[ti] > 0 && st.Tokens[ti].Exists && len(thresholds) == 0 {
+					th := v.Locking[ti] + int64(1+r.Intn(2))
+					tj := (ti + 1) % 2 // tokens 1 and 2 always exist
+					if tj == ti {
+						tj = 1 - ti
+					}
+					lk.UpdateThresholds = append(lk.UpdateThresholds,
+						&goattypes.UpdateTokenThresholdRequest{Token: project.TokenAddrs[ti], Threshold: big.NewInt(th)},
+						&goattypes.UpdateTokenThresholdRequest{Token: project.TokenAddrs[tj], Threshold: big.NewInt(st.Thr[tj])})
+					thresholds = append(thresholds, Ev{"t": ti + 1, "th": th}, Ev{"t": tj + 1, "th": st.Thr[tj]})
+				}
+			}
+		}
+	}
+	if rare(7) && len(thresholds) == 0 {
 		t := 1 + r.Intn(4)
 		if !st.Tokens[t-1].Exists && !dirty(4) {
 			t = 1 + r.Intn(2)
